@@ -255,6 +255,36 @@ theorem invK {s : State κ ν} (hr : Reach (lts fixedCfg) s) : InvK s := by
   | init => simp [InvK, lts, init]
   | step a _ hst ih => exact invK_step ih hst
 
+/-- `taus` is complete: every enabled internal label is listed (so "no `taus`" = "no internal
+step", which is what the driver's `quiet` check and `stranded_witness` rely on). -/
+theorem taus_complete {cfg : Cfg} {s s' : State κ ν} {l : Label κ ν} (hi : l.isInternal = true)
+    (hst : step cfg s l = some s') : l ∈ taus cfg s := by
+  unfold taus
+  rw [List.mem_filter]
+  refine ⟨?_, by simp [hst]⟩
+  unfold tauCandidates
+  cases l <;> simp [Label.isInternal, Label.isLoop] at hi <;> try (simp; done)
+  case peek hd =>
+    cases hd with
+    | none => simp
+    | some r =>
+      have : r ∈ s.q := by
+        simp only [step] at hst
+        split at hst <;> try contradiction
+        split at hst <;> try contradiction
+        rename_i h; exact h.1
+      simp [this]
+  case execCheck hd =>
+    cases hd with
+    | none => simp
+    | some r =>
+      have : r ∈ s.q := by
+        simp only [step] at hst
+        split at hst <;> try contradiction
+        split at hst <;> try contradiction
+        rename_i h; exact h.1
+      simp [this]
+
 /-- Run a list of labels. -/
 def runFrom (cfg : Cfg) (s : State κ ν) : List (Label κ ν) → Option (State κ ν)
   | [] => some s
